@@ -588,3 +588,14 @@ package ast
 //@   property C05
 //@   pure
 //@   modifies nothing
+
+//
+// Path.Append: a fresh path made of the receiver followed by the suffix; nothing that existed is written
+// (in particular not the spare capacity of the receiver: appending to a shared prefix in place is the
+// classic way to make two paths overwrite each other).
+//@ spec pathConcat(root, suffix, new) = len(new) == len(root) + len(suffix) && (forall i: int :: 0 <= i && i < len(root) ==> new[i] == root[i]) && (forall i: int :: 0 <= i && i < len(suffix) ==> new[len(root) + i] == suffix[i])
+//@ func Path.Append
+//@   property C17
+//@   modifies nothing
+//@   ensures  fresh: base(result) == 0 || fresh(result)
+//@   ensures  concat: pathConcat(path, suffix, result)
